@@ -4,14 +4,14 @@ import importlib
 # property -> list of (rule module, configs it needs in quick tier)
 PROPERTY_RULES = {
     "C01": ["r_a10", "r_a9", "r_a8", "r_a2", "r_o3", "r_a12", "r_a13", "r_a4", "r_a16", "r_a17", "r_a19", "r_a18", "r_a20", "r_a21", "r_a23", "r_u3"],
-    "C02": ["r_a6", "r_a4", "r_a8", "r_a2", "r_o3", "r_e1", "r_b1", "r_a13", "r_a14", "r_a16", "r_a17", "r_a18", "r_a9", "r_c6", "r_a20", "r_a21", "r_a23", "r_u1"],
+    "C02": ["r_a6", "r_a4", "r_a8", "r_a2", "r_o3", "r_e1", "r_b1", "r_a13", "r_a14", "r_a16", "r_a17", "r_a18", "r_a9", "r_c6", "r_a20", "r_a21", "r_a23", "r_u1", "r_a3"],
     "C03": ["r_a2", "r_a3", "r_a8", "r_a14", "r_b1", "r_a17", "r_a4"],
     "C04": ["r_a8", "r_e1", "r_a6", "r_a2", "r_b1", "r_o3", "r_a4", "r_a17", "r_a18", "r_a21", "r_a23"],
     "C05": ["r_b1", "r_o3", "r_a2", "r_a12", "r_a3"],
     "C06": ["r_b1", "r_o3", "r_a2"],
     "C07": ["r_a12", "r_a13", "r_a2", "r_a9", "r_a11", "r_a8", "r_a25"],
     "C08": ["r_a11", "r_o3", "r_a2", "r_a4", "r_a8", "r_a12", "r_e2", "r_a15", "r_a22", "r_a25"],
-    "C09": ["r_c4", "r_c3", "r_c1", "r_c5", "r_c7", "r_c8", "r_c9"],
+    "C09": ["r_c4", "r_c3", "r_c1", "r_c5", "r_c7", "r_c8", "r_c9", "r_e1"],
     "C10": ["r_c2", "r_c1", "r_e1", "r_c5", "r_c7", "r_c8", "r_c4", "r_c3", "r_c9"],
     "C11": ["r_c2", "r_c1", "r_a6", "r_c5", "r_c4", "r_e1", "r_a8", "r_a9", "r_a16", "r_a21", "r_c9", "r_a23", "r_c8", "r_u3"],
     "C12": ["r_c4", "r_e1", "r_c9"],
